@@ -1328,6 +1328,7 @@ def gen_sum(ctx, st):
                 "cellname": "%s/%s-prior/%d-likelihoods" % (fam, prior.get("sfam", prior["fam"]), nl)}
         out.append(case_sum(meta, st))
     out += gen_sum_factors(ctx, st)
+    out += gen_sum_bounded(ctx, st)
     return out
 
 
@@ -1369,7 +1370,71 @@ def rand_prior(rng, kind, n):
                 "mean": rand_mean(rng, n), "prec": P_(rpos(rng))}
     if kind == "c":
         return {"fam": "sep", "sfam": "Cauchy", "n": n, "pars": [["v", pv(rvec(rng, n, nonzero=True))], ["s", P_(rpos(rng))], ["s", P_(0)]], "geom_n": True}
+    if kind in BOUNDED_PRIORS:
+        return sep_meta(rng, BOUNDED_PRIORS[kind], n, vec=(rng.random() < 0.5))
     return rand_user_factor(rng, "udist", n, grad=(kind == "u"))
+
+
+# priors with a bounded support inside a Posterior / multiple-likelihood posterior: the sum rule inside the support and
+# the "non-finite outside the support" clause AT THE LEVEL OF THE COMPOSITE (a factor's NaN must survive the sum)
+BOUNDED_PRIORS = {"U": "Uniform", "B": "Beta", "I": "InvGamma", "H": "MHN", "L": "LognormalDiag"}
+BOUNDED_LATTICE = [(fam, liks, pk, style) for pk in BOUNDED_PRIORS for (fam, liks, style) in
+                   (("post", "R", "direct"), ("post", "U", "direct"), ("mlp", "RU", "direct"), ("mlp", "RR", "joint"))]
+
+
+def gen_sum_bounded(ctx, st):
+    rng = ctx.rng
+    out = []
+    for (fam, liks, pk, style) in BOUNDED_LATTICE:
+        sf = BOUNDED_PRIORS[pk]
+        if style == "joint" and sf == "LognormalDiag" and False:
+            continue
+        n = rng.randint(2, 3)
+        parts = []
+        for ch in liks:
+            if ch == "R":
+                parts.append(lik_meta(rng, rand_model(rng, rng.choice(MODEL_KINDS), ("default",), n=n), *rng.choice([("cov", "vector"), ("cov", "matrix"), ("sqrtprec", "scalar")])))
+            else:
+                parts.append(rand_user_factor(rng, "ulik", n, grad=True, geom="cont1d"))
+        prior = rand_prior(rng, pk, n)
+        base = {"fam": fam, "parts": parts + [prior], "n": n, "style": style, "_checked": True}
+        # inside the support of the prior: the sum rule
+        m_in = dict(base, x=pv(sep_point(rng, prior)), x1=pv(sep_point(rng, prior)),
+                    cellname="%s/factors:%s/bounded-prior:%s/%s/inside" % (fam, liks, sf, style))
+        out.append(case_sum(m_in, st))
+        # exactly one coordinate outside, on every side the family has: the composite's gradient must be non-finite
+        a, b, c = sep_parlists(prior)
+        for side in [sd for sd in OOS_SIDES[sf] if sd in ("low", "high", "at-low", "at-high")]:
+            x = sep_point(rng, prior)
+            i = rng.randrange(n)
+            lo = {"Beta": Fraction(0), "InvGamma": b[i], "MHN": Fraction(0), "LognormalDiag": Fraction(0), "Uniform": a[i]}[sf]
+            hi = {"Beta": Fraction(1), "Uniform": b[i]}.get(sf)
+            x[i] = {"low": lo - Fraction(1, 4), "at-low": lo, "high": (hi or 0) + Fraction(1, 4), "at-high": hi}[side]
+            m_out = dict(base, x=pv(x), x1=pv(sep_point(rng, prior)), oos_prior=side,
+                         cellname="%s/factors:%s/bounded-prior:%s/%s/outside-%s" % (fam, liks, sf, style, side))
+            out.append(case_sum(m_out, st))
+    # the same clause from the likelihood side: a Lognormal data distribution with one non-positive datum (logd = -inf / nan at
+    # every theta) as a factor of a Posterior / multiple-likelihood posterior with an unbounded prior
+    for fam, liks in (("post", "L"), ("mlp", "RL"), ("mlp", "LU")):
+        for datum in (Fraction(0), Fraction(-1, 2)):
+            n = rng.randint(2, 3)
+            parts = []
+            for ch in liks:
+                if ch == "L":
+                    lm = lik_meta(rng, rand_model(rng, rng.choice(MODEL_KINDS), ("default",), n=n), "cov", rng.choice(["vector", "matrix"]), lognormal=True)
+                    dd = uv(lm["data"])
+                    dd[rng.randrange(len(dd))] = datum
+                    lm["data"] = pv(dd)
+                    parts.append(lm)
+                elif ch == "R":
+                    parts.append(lik_meta(rng, rand_model(rng, rng.choice(MODEL_KINDS), ("default",), n=n), "cov", "vector"))
+                else:
+                    parts.append(rand_user_factor(rng, "ulik", n, grad=True, geom="cont1d"))
+            parts.append(rand_prior(rng, "g", n))
+            out.append(case_sum({"fam": fam, "parts": parts, "n": n, "style": "direct", "_checked": True, "x": pv(rvec(rng, n, -1, 1)), "x1": pv(rvec(rng, n, -1, 1)),
+                                 "oos_prior": "datum %s of a Lognormal likelihood" % datum,
+                                 "cellname": "%s/factors:%s/lognormal-datum-%s/outside" % (fam, liks, "zero" if datum == 0 else "negative")}, st))
+    return out
 
 
 def gen_sum_factors(ctx, st):
@@ -1440,6 +1505,23 @@ def case_sum(meta, st):
     f = logd_of(obj)
     dtot = f(x1) - f(x)
     dparts = [flogd(c)(x1) - v for c, v in zip(comps, pl)]
+    if meta.get("oos_prior"):
+        # a point outside the support of one factor (by the harness's own construction): the composite's logd is not a finite
+        # number there and its gradient must not be a finite vector
+        with np.errstate(all="ignore"):
+            v = f(x)
+        d, sig = None, ""
+        if math.isfinite(v):
+            d = "logd of the composite is the finite number %r at %s, outside the support of its prior (%s)" % (v, x.tolist(), meta["oos_prior"])
+        elif o[0] not in ("nan", "raised"):
+            d = ("outside the support of the prior (%s, x = %s, logd = %r) the %s returns the finite %s %s"
+                 % (meta["oos_prior"], x.tolist(), v, type(obj).__name__, o[0], np.round(o[1], 6).tolist() if o[0] == "vec" else ""))
+        if d:
+            sig = "C03|%s|finite-outside-support" % meta["cellname"]
+        nfac = len(getattr(obj, "_densities", comps))
+        expr = "check_sum_obs true %s %s && Nat.eqb %s %s" % (clist([cobs(p) for p in po]), cobs(o), cnat(nfac),
+                                                             cnat(len(comps)) if hasattr(obj, "_densities") else cnat(nfac))
+        return Case(expr=expr, meta=meta, cell=meta["cellname"], kind="DECISION", impl_fail=d, signature=sig)
     d, sig = verdict_case(meta, o, obj, x, dim, fd=bool(meta.get("fd_parts")), kw="x")
     # keep-alive: evaluating the posterior must not have changed any factor, and a second call must agree with the first
     po2 = [observe(lambda c=c: c.gradient(x)) for c in comps]
